@@ -59,6 +59,25 @@ def _case(draw, depth, feature=None, twin=False):
             {"o": "*", "a": {"o": "-", "a": V("r"), "b": V("a")}, "b": {"o": "+", "a": V("b0"), "b": {"o": "num", "v": 0.25}}}]))
         customs = [c for c in customs if c["name"] != "twinf"] + [{"name": "twinf", "params": ["r", "a", "b0"], "expr": shape}]
         feature = "twin"
+    if feature == "rebind":
+        # a formula that calls another formula with OTHER values for parameters of the same names, and reads its own
+        # parameters again after the call: each formula's parameters are its own
+        V = lambda n: {"o": "var", "n": n}
+        N = lambda v: {"o": "num", "v": v}
+        inner = {"name": "innerf", "params": ["r", "a", "b0"], "expr": draw(st.sampled_from([
+            {"o": "+", "a": {"o": "*", "a": V("a"), "b": V("r")}, "b": V("b0")},
+            {"o": "*", "a": {"o": "-", "a": V("r"), "b": V("a")}, "b": {"o": "+", "a": V("b0"), "b": N(0.25)}}]))}
+        call = {"o": "custom", "f": "innerf", "args": [
+            {"o": "+", "a": V("r"), "b": N(draw(st.sampled_from([0.5, 0.0, 1.25])))},
+            {"o": "*", "a": N(draw(st.sampled_from([2.0, 0.5, -1.0]))), "b": V("a")},
+            {"o": "+", "a": V("b0"), "b": N(draw(st.sampled_from([1.0, -0.75])))}]}
+        after = draw(st.sampled_from([
+            {"o": "-", "a": {"o": "*", "a": V("a"), "b": V("r")}, "b": V("b0")},
+            {"o": "/", "a": V("a"), "b": V("r")},
+            {"o": "*", "a": V("b0"), "b": V("r")}]))
+        outer = {"name": "outerf", "params": ["r", "a", "b0"], "expr": {"o": "+", "a": call, "b": after}}
+        customs = [c for c in customs if c["name"] not in ("innerf", "outerf")] + [inner, outer]
+        feature = "rebind_"
     pd = draw(gen.potdef(depth, customs, tables, max_ranges=4))
     if feature == "negative_shift":
         # trans(f, as.constant X) with X < 0: below r = -X the argument r + X is not positive, where a definition
@@ -122,7 +141,8 @@ def strategy(tier):
 def strata(tier):
     out = [("plain:depth%d" % d, _case(d), w) for d, w in ((1, 2), (2, 3), (3, 2))]
     out.append(("negative_shift", _case(1, "negative_shift"), 1))
-    out.append(("formula:fmod", _case(1, "fmod"), 0.7))     # remainders with dividend and divisor of opposite signs
+    out.append(("formula:fmod", _case(1, "fmod"), 0.7))
+    out.append(("formula:call_with_other_values", _case(1, "rebind"), 1))     # remainders with dividend and divisor of opposite signs
     # two entries that use the same forms and differ in ONE parameter value (-1 / -2 and other close pairs)
     out.append(("sibling:one_parameter", st.one_of(_case(1, "arith", True), _case(1, "func", True), _case(2, "arith", True)), 2.5))
     for feat in gen.FEATURES:
